@@ -469,7 +469,7 @@ PROPS["C08"] = {
 }
 PROPS["C07"] = {
     "kani_units": ["U8d", "U17", "U15", "U24"],
-    "verus_units": ["ref_counter", "overlay_publish"],
+    "verus_units": ["ref_counter", "overlay_publish", "iter_while"],
     "level": "other",
     "technique": "Verus proof of the counter transition fragment of the real change_ref (all u32 counters) and of the overlay mirroring rules",
     "claim": "The counter transition applied by change_ref is, for every 32-bit counter: +1 (saturating into the lock value u32::MAX), locked stays locked, -1 while >= 2, and 'remove' (nothing written, false returned) when the count would reach zero; Reference / ref-counted Dereference are never mirrored in the commit overlay while Set is (U10). The per-operation dispatch (write_existing_value_plan) and histories are not covered.",
@@ -525,6 +525,10 @@ UNIT_META = {
             "assumes": ["commit_raw is exercised with an empty transaction (non-empty std HashMaps cannot be built under CBMC)", "stage functions of kill_logs by contract (as U33)"]},
     "U35": {"functions": ["options::Options::load_and_validate_metadata", "options::ColumnOptions::is_valid", "options::ColumnOptions (derived equality)"],
             "assumes": ["Options::load_metadata (read and parse the metadata file) and Options::write_metadata replaced by contracts", "a salt is given in the options (the random salt of a fresh database is outside the harness)", "error text (format!) stubbed"]},
+    "iter_while": {"functions": ["table::ValueTable::iter_while"],
+                   "assumes": ["the chain reader with its collecting closure (for_parts(Fetch, index, log, |buf| result.extend_from_slice(buf))) is replaced by a contract returning what the slot holds (live chain / zero counter / not a value head / read failure); its ingredients are checked boundedly under C06 (U6-R)",
+                               "the client callback becomes a recorder object (rewrite of the call expression, listed); AtomicU64::load and Error are stand-ins declared in the template",
+                               "slot 0 is the table header: the walk is specified over slots 1..written"]},
     "commit_publish": {"functions": ["db::DbInner::commit_raw (validate-then-publish block: from the first validation loop to the construction of the queue entry; fragment)"],
                        "assumes": ["the lock guards `queue` / `overlay` of the real function become &mut parameters of a hand-written wrapper (rule R8); loops get iterator names and `&map` becomes `map.iter()` (listed rewrites)",
                                    "IndexedChangeSet / BTreeChangeSet::{check, copy_to_overlay} carry the contracts proved by unit overlay_publish (check accepts exactly valid change sets; copy_to_overlay cannot fail on a valid one); the byte-counter preconditions of copy_to_overlay are assumed",
@@ -708,3 +712,5 @@ PROPS["C17"] = {
     "explanation": "Bounded in the number of columns (<= 2), complete over all flag combinations for those; level 'other' because only one function of the property is decided.",
     "does_not_cover": ["metadata file round trip (as_string / from_string)", "files touched by DbInner::open before validation (directory, lock file)", "add_column, drop_last_column, reset_column, clear_column"],
 }
+PROPS["C07"]["claim"] = PROPS["C07"]["claim"].replace("iter_values visits every value table and reports each live value with its count.", "iter_values visits every value table (bounded) and ValueTable::iter_while reports, for any fill mark, exactly the live values of slots 1..written in slot order with their counts, passes over slots that are not value heads, stops only on the client's request or a read failure, and never swallows a read failure (Verus, unbounded).")
+PROPS["C07"]["does_not_cover"] = ["histories, restarts", "frame of change_ref (other entry bytes untouched)", "the chain reader under iter_while (bounded under C06)", "btree-indexed ref-counted columns"]
